@@ -1,3 +1,4 @@
+#![recursion_limit = "512"]
 //! tfsim — deterministic simulation with fault injection for twofloat's
 //! text-output and serde seams (property C20). See /verif/DESIGN.md.
 //!
@@ -17,6 +18,7 @@ mod simformat;
 mod sweep;
 mod tomlleg;
 mod values;
+mod vocab;
 
 use common::*;
 use prng::{run_seed, Hash64, Rng};
@@ -81,20 +83,53 @@ impl Case {
 pub struct Step {
     pub history: Vec<history::HistOp>,
     pub case: Case,
+    /// run this step on a fresh thread with a stack of this many KiB (the batch workers have
+    /// 16 MiB; callers of the crate may have far less)
+    pub stack_kib: Option<u32>,
 }
 
 impl Step {
     pub fn plain(case: Case) -> Self {
-        Step { history: Vec::new(), case }
+        Step { history: Vec::new(), case, stack_kib: None }
     }
-    /// Perform the history (results ignored, panics reported), then the checked operation.
+    /// Perform the history (results ignored, panics reported), then the checked operation —
+    /// on a small-stack thread if the step says so.
     pub fn execute(&self) -> LegReport {
+        match self.stack_kib {
+            None => self.execute_here(),
+            Some(kib) => {
+                let me = Step { stack_kib: None, ..self.clone() };
+                match std::thread::Builder::new().stack_size((kib as usize) << 10).spawn(move || me.execute_here()) {
+                    Ok(h) => match h.join() {
+                        Ok(mut rep) => {
+                            rep.probes.hit("step_on_small_stack_thread");
+                            rep
+                        }
+                        Err(_) => {
+                            let mut rep = LegReport::default();
+                            rep.violations.push(viol("HARNESS", "small-stack thread died outside a guarded region"));
+                            rep
+                        }
+                    },
+                    Err(_) => self.execute_here(),
+                }
+            }
+        }
+    }
+
+    fn execute_here(&self) -> LegReport {
         let mut pre = Vec::new();
         let mut hist_log = Vec::new();
         for op in &self.history {
             match history::perform(op) {
                 Ok(digest) => hist_log.push(digest),
-                Err(msg) => pre.push(viol("PANIC", format!("history operation {:?} panicked: {msg}", op))),
+                Err(msg) => match msg.strip_prefix("HISTORY-VIOLATION ") {
+                    Some(rest) => {
+                        let (class, detail) = rest.split_once(": ").unwrap_or((rest, ""));
+                        pre.push(viol(class, format!("in history operation {:?}: {detail}", op)));
+                    }
+                    None => pre.push(viol("PANIC", format!("history operation {:?} panicked: {msg}", op))),
+                },
             }
         }
         let mut rep = self.case.execute();
@@ -113,15 +148,18 @@ impl Step {
     pub fn shrink(&self) -> Vec<Step> {
         let mut out = Vec::new();
         if !self.history.is_empty() {
-            out.push(Step { history: Vec::new(), case: self.case.clone() });
+            out.push(Step { history: Vec::new(), case: self.case.clone(), stack_kib: self.stack_kib });
             for i in 0..self.history.len() {
                 let mut h = self.history.clone();
                 h.remove(i);
-                out.push(Step { history: h, case: self.case.clone() });
+                out.push(Step { history: h, case: self.case.clone(), stack_kib: self.stack_kib });
             }
         }
+        if self.stack_kib.is_some() {
+            out.push(Step { stack_kib: None, ..self.clone() });
+        }
         for c in self.case.shrink() {
-            out.push(Step { history: self.history.clone(), case: c });
+            out.push(Step { history: self.history.clone(), case: c, stack_kib: self.stack_kib });
         }
         out
     }
@@ -150,7 +188,8 @@ pub fn generate_run(base: u64, index: u64, st: &mut values::GenStats) -> (values
                 _ => None,
             };
             let history = history::generate(&mut r, case.leg(), v.hi, v.lo, other, spec);
-            Step { history, case }
+            let stack_kib = if r.chance(1, 300) { Some(*r.pick(&[256u32, 2048])) } else { None };
+            Step { history, case, stack_kib }
         })
         .collect();
     (v, steps)
@@ -449,6 +488,8 @@ fn report_hang(kind: Kind, base: u64, index: u64, ordinal: usize, out_dir: &Path
         minimised: false,
         shrink_steps: 0,
         config_label: label.clone(),
+        stack_kib: None,
+        on_main_thread: false,
         history: history.clone(),
         case: case.clone(),
         delivered_record: None,
@@ -560,6 +601,11 @@ fn run_batch(base: u64, runs: u64, workers: usize, known: &KnownFindings) -> Bat
     run_batch_kind(base, runs, workers, known, Kind::Random)
 }
 
+thread_local! {
+    /// set while the main thread itself executes runs (main-thread slice)
+    static ON_MAIN_THREAD: std::cell::Cell<bool> = const { std::cell::Cell::new(false) };
+}
+
 /// Where a hang report is written (set once in main).
 static HANG_CTX: std::sync::OnceLock<(PathBuf, Option<String>, String, u64)> = std::sync::OnceLock::new();
 /// Start of the process and what the secondary configurations reported (for a watchdog report's evidence).
@@ -652,6 +698,12 @@ struct ReplayFile {
     /// build configuration of the simulator that recorded this file (None = primary)
     #[serde(default, skip_serializing_if = "Option::is_none")]
     config_label: Option<String>,
+    /// stack size (KiB) of the thread the step ran on, if not a 16 MiB worker
+    #[serde(default, skip_serializing_if = "Option::is_none")]
+    stack_kib: Option<u32>,
+    /// the step ran on the process's main thread
+    #[serde(default, skip_serializing_if = "std::ops::Not::not")]
+    on_main_thread: bool,
     /// operations performed (on related values, results ignored) before the checked case
     #[serde(default)]
     history: Vec<history::HistOp>,
@@ -823,8 +875,13 @@ fn replay(path: &Path, known: &KnownFindings, my_label: &Option<String>, known_d
             }
         };
     }
-    let step = Step { history: rf.history.clone(), case: rf.case.clone() };
+    let step = Step { history: rf.history.clone(), case: rf.case.clone(), stack_kib: rf.stack_kib };
     println!("replay {}: leg={} recorded class={}", path.display(), LEG_NAMES[rf.case.leg()], rf.class);
+    if rf.on_main_thread {
+        // recorded on the main thread: execute right here (replay() was called on the main thread)
+        let rep = step.execute();
+        return finish_replay(path, &rf, &rep, known);
+    }
     // execute under a deadline: a recorded HANG must not hang the replay
     let (tx, rx) = std::sync::mpsc::channel();
     {
@@ -848,6 +905,10 @@ fn replay(path: &Path, known: &KnownFindings, my_label: &Option<String>, known_d
             std::process::exit(1);
         }
     };
+    finish_replay(path, &rf, &rep, known)
+}
+
+fn finish_replay(path: &Path, rf: &ReplayFile, rep: &LegReport, known: &KnownFindings) -> i32 {
     println!("outcome: {}", rep.outcome);
     let mut code = 0;
     for v in &rep.violations {
@@ -861,7 +922,7 @@ fn replay(path: &Path, known: &KnownFindings, my_label: &Option<String>, known_d
             code = 1;
         }
     }
-    match has_class(&rep, &rf.class) {
+    match has_class(rep, &rf.class) {
         Some(v) => {
             println!("REPRODUCED class={} detail_identical={}", v.class, v.detail == rf.detail);
             if code == 1 {
@@ -913,6 +974,8 @@ const REQUIRED_PROBES: &[&str] = &[
     "json_host_tuple",
     "json_host_stream",
     "json_api_via_value",
+    "json_api_via_value_ref",
+    "sink_reentrant_formatting",
     "json_reader_behind_bufreader",
     "history_before_checked_operation",
     "fmt_with_width_or_alternate_flags",
@@ -1071,6 +1134,10 @@ fn write_evidence(
             "simulated_time": {
                 "unit": "logical steps = seam events delivered (calls across fmt::Write / Serializer / Deserializer access / io::Read / io::Write); the code under test has no clock, timer or deadline, so there is no simulated wall time to report",
                 "seam_events": st.steps
+            },
+            "crate_is_stateless_and_environment_blind": {
+                "note": "assumption behind the histories and the replay files; the crate's sources are scanned for statics, thread-locals, interior mutability, clocks, env/thread/type identity, target-specific cfg; hits are listed, not judged",
+                "indicators_found": crate::vocab::state_and_environment_indicators()
             },
             "runs_per_hour": runs_per_hour,
             "runs_per_hour_note": "primary configuration's batch only (wall_s likewise): builds and the secondary configurations are not included; lattice and sweep 'runs' hold hundreds to thousands of cases each",
@@ -1306,7 +1373,7 @@ fn selftest(a: &Args, known: &KnownFindings) -> i32 {
             let js = serde_json::to_string(&x.case).unwrap();
             let hs = serde_json::to_string(&x.history).unwrap();
             let back: Step = match (serde_json::from_str::<Case>(&js), serde_json::from_str::<Vec<history::HistOp>>(&hs)) {
-                (Ok(c), Ok(h)) => Step { history: h, case: c },
+                (Ok(c), Ok(h)) => Step { history: h, case: c, stack_kib: x.stack_kib },
                 (a, b) => {
                     println!("SELFTEST FAIL: case does not survive its replay encoding: {:?} {:?}\n{js}\n{hs}", a.err(), b.err());
                     return 2;
@@ -1542,6 +1609,8 @@ fn report_window(a: &Args, replay_dir: &Path, label: &str, spec: &SequenceSpec, 
         minimised: false,
         shrink_steps: 0,
         config_label: a.config_label.clone(),
+        stack_kib: None,
+        on_main_thread: false,
         history: Vec::new(),
         case: placeholder.clone(),
         delivered_record: None,
@@ -1692,6 +1761,15 @@ fn main() {
         std::process::exit(crash_hunt(&a, &od));
     }
     if let Some(p) = &a.replay {
+        // a step recorded on the main thread is replayed on the main thread
+        let on_main = std::fs::read_to_string(p)
+            .ok()
+            .and_then(|t| serde_json::from_str::<serde_json::Value>(&t).ok())
+            .and_then(|v| v.get("on_main_thread").and_then(|b| b.as_bool()))
+            .unwrap_or(false);
+        if on_main {
+            std::process::exit(replay(p, &known, &a.config_label, &a.verif_dir));
+        }
         // same stack size as the batch workers
         let (p, known2, label, vdir) = (p.clone(), known.clone(), a.config_label.clone(), a.verif_dir.clone());
         let code = std::thread::Builder::new()
@@ -1752,6 +1830,29 @@ fn main() {
             break;
         }
     }
+    // a slice of the same runs on the process's main thread: thread identity must not matter
+    let mut main_thread_failure = false;
+    if failing.is_none() && a.replay_sequence.is_none() {
+        let n = if a.tier == "thorough" { 20_000 } else { 2_000 }.min(runs);
+        ON_MAIN_THREAD.with(|m| m.set(true));
+        let mut st = BatchStats::default();
+        let stop = AtomicU64::new(u64::MAX);
+        let beat = Beat::default();
+        for i in 0..n {
+            run_one(a.seed, i, &known, &mut st, &stop, Kind::Random, &beat);
+            if st.first_fail.is_some() {
+                break;
+            }
+        }
+        ON_MAIN_THREAD.with(|m| m.set(false));
+        st.probes.add("runs_repeated_on_the_main_thread", st.runs);
+        let ff = st.first_fail.clone();
+        total.merge(st);
+        if let Some((idx, fails)) = ff {
+            failing = Some((a.seed, idx, fails, Kind::Random));
+            main_thread_failure = true;
+        }
+    }
     // quick: a thin validity-gate lattice over every biased exponent of the high word
     if failing.is_none() && (a.lattice || (a.tier == "quick" && a.sweep.is_none() && a.runs.is_none())) {
         let b = run_batch_kind(a.seed, 2048, a.workers, &known, Kind::ThinLattice);
@@ -1808,6 +1909,8 @@ fn main() {
                     minimised: true,
                     shrink_steps: steps,
                     config_label: a.config_label.clone(),
+                    stack_kib: min_step.stack_kib,
+                    on_main_thread: main_thread_failure,
                     history: min_step.history,
                     case: min_step.case,
                     delivered_record: rec,
@@ -1875,6 +1978,8 @@ fn main() {
                                         minimised: true,
                                         shrink_steps: 0,
                                         config_label: a.config_label.clone(),
+                                        stack_kib: None,
+                                        on_main_thread: false,
                                         history: Vec::new(),
                                         case: case.case.clone(),
                                         delivered_record: None,
@@ -1995,6 +2100,16 @@ fn main() {
     let zf: Vec<&&str> = REQUIRED_FAULTS.iter().filter(|p| total.faults_fired.get(p) == 0).collect();
     if !zp.is_empty() || !zf.is_empty() {
         println!("note: required probes at zero: {:?}; fault kinds at zero: {:?}", zp, zf);
+    }
+    if a.config_label.is_none() {
+        let ind = vocab::state_and_environment_indicators();
+        if !ind.is_empty() {
+            println!(
+                "note: the crate's sources contain constructs that can make behaviour depend on history or environment ({} places, e.g. {}); the simulation samples such dependence through histories and run windows but cannot rule it out",
+                ind.len(),
+                ind[0]
+            );
+        }
     }
     if exit == 0 {
         println!(
